@@ -262,8 +262,8 @@ class C23:
     PROP = "C23"
     LEVEL = "exploration"
     TIERS = {
-        "quick": {"runs": 100000, "budget_s": 50, "chunk": 100, "determinism_runs": 48},
-        "thorough": {"runs": 3000000, "budget_s": 1200, "chunk": 200, "determinism_runs": 256,
+        "quick": {"runs": 100000, "budget_s": 50, "chunk": 200, "determinism_runs": 48},
+        "thorough": {"runs": 3000000, "budget_s": 1200, "chunk": 400, "determinism_runs": 256,
                      "minimise_s": 120},
     }
     RULE = ("Each run is one seeded history: 1-5 concurrent clients x <=12 requests total (quick) or <=40 "
